@@ -9,6 +9,7 @@ import Driver.Reader
 import Driver.Quote
 import Driver.Ansi
 import Driver.Http
+import Driver.Term
 /-
 fzfmodel: reads protocol lines `<area> <op> <args>... => <impl answer>` on stdin and
 prints, per line, `EQ|NE PASS|FAIL|NA | model=<answer> | <reason>`.
@@ -27,6 +28,7 @@ def dispatch (ctx : Driver.Algo.Ctx) (area op : String) (args impl : List String
   | "quote" => Driver.Quote.run op args impl
   | "ansi" => Driver.Ansi.run op args impl
   | "http" => Driver.Http.run op args impl
+  | "term" => Driver.Term.run ctx op args impl
   | _ => { model := "bad-area" }
 
 def processLine (ctx : Driver.Algo.Ctx) (line : String) : String :=
